@@ -228,6 +228,10 @@ def report(prop, tier, seed, groups, results, wall, ws, verbose=False, partial=F
         gsum.append(gs)
     # ---- output
     rc = 0
+    if verbose:
+        for gs in gsum:
+            print("  group %-34s %-8s obl=%-5d ok=%-5d cbmc=%6.1fs total=%6.1fs" % (gs["group"], gs["kind"], gs["obligations"],
+                  gs["discharged"], gs["times_s"].get("cbmc", 0), gs["times_s"].get("total", 0)))
     for g, e in tool_errors:
         print("TOOL-ERROR group=%s: %s" % (g.name, e.strip().splitlines()[0][:300]))
         if verbose:
